@@ -266,9 +266,17 @@ def _chunk(args):
     sess = Session.worker(PID, tier, seed)
     # both flavours of the cache-pressure class and several cluster-tie scenarios are in every run
     forced = {0: "wide", 1: "tiny", 2: "cluster-tie", 3: "cluster-tie", 4: "cluster-tie", 5: "cluster-tie"}.get(i)
+    if forced:
+        # (an extra scenario from its own random stream: the random scenarios below are what they would be without it)
+        frng = random.Random(f"C01/forced/{seed}/{i}")
+        try:
+            check_scenario(gen_scenario(frng, cp=forced), sess, frng, tier)
+        except Exception as ex:
+            import traceback
+            sess.inconclusive_because(f"harness error {type(ex).__name__}: {ex} @ {traceback.format_exc()[-500:]}")
     for j_ in range(n):
         try:
-            check_scenario(gen_scenario(rng, cp=(forced if j_ == 0 else None)), sess, rng, tier)
+            check_scenario(gen_scenario(rng), sess, rng, tier)
         except Exception as ex:
             import traceback
             sess.inconclusive_because(f"harness error {type(ex).__name__}: {ex} @ {traceback.format_exc()[-500:]}")
